@@ -434,7 +434,7 @@ func shortModel(m map[string]uint64) string {
 		if m[k] == 0 && len(ks) > 12 {
 			continue
 		}
-		if n > 24 {
+		if n > 10 {
 			sb.WriteString(" ...")
 			break
 		}
